@@ -898,11 +898,11 @@ class E9Hostile(Engine):
         "time: deterministic budget of traced interpreter steps + RLIMIT_CPU in a worker subprocess (big-int arithmetic produces no trace events)",
     ]
     assumptions = [
-        "prompt termination = 400000 + 3000*len(text) traced lines inside Reduino code and 20 s of CPU for a batch of 18 texts",
+        "prompt termination = 400000 + 3000*len(text) traced lines inside Reduino code and 20 s of CPU for a batch of 20 texts",
         "SyntaxError is accepted only for text that ast.parse itself rejects",
     ]
     rule = (
-        "each case = 18 texts: hostile expressions (code execution, file/process/network/env access, huge arithmetic, "
+        "each case = 20 texts: hostile expressions (code execution, file/process/network/env access, huge arithmetic, "
         "deep nesting, wrong types) planted in ~60 argument positions the parser folds or re-parses; mutated valid "
         "scripts; byte noise. Judged per text: result is str or ValueError (SyntaxError only if not Python), no audit "
         "event, no canary, no env/cwd/module-state change, within the step and CPU budget; non-trivial = at least one "
@@ -910,7 +910,7 @@ class E9Hostile(Engine):
     )
 
     def generate(self, rng, tier: str, avoid) -> dict:
-        from dst.gen.hostile import growth_chain, hostile_texts, mutate_text, noise, padded_statement, rejection_texts, wild_script
+        from dst.gen.hostile import growth_chain, hostile_texts, mutate_text, noise, padded_statement, rejection_texts, runtime_arg_text, wild_script
         from dst.gen.programs import GenOptions, ProgGen
 
         canary = "/verif/.work/canary/HIT"
@@ -925,6 +925,7 @@ class E9Hostile(Engine):
         texts.append(growth_chain(rng))
         texts += [wild_script(rng) for _ in range(3)]
         texts.append(padded_statement(rng))
+        texts += [runtime_arg_text(rng) for _ in range(2)]
         skip = set(avoid)
         if "hostile_bigint" in skip:
             texts = [t for t in texts if not re.search(r"\*\*\s*\d+\s*\*\*|<<\s*10\s*\*\*|\*\*\s*7777|\* 10\*\*10|10\*\*8", t)] or ["x = 1\n"]
@@ -997,11 +998,13 @@ class E9Hostile(Engine):
                     continue
                 return self._bad(i, "exception-type/SyntaxError", f"SyntaxError for text that is valid Python: {res['exc_msg']}")
             if "RecursionError" in mro or "MemoryError" in mro:
-                # accepted only when CPython itself cannot parse the text (it is then "not Python" for this interpreter)
+                # accepted only when CPython itself gives up on the whole text in the same way
                 try:
                     pyast.parse(text)
-                except (RecursionError, MemoryError, SyntaxError, ValueError):
+                except (RecursionError, MemoryError):
                     continue
+                except (SyntaxError, ValueError):
+                    pass
             return self._bad(i, f"exception-type/{res['exc_type']}", f"internal error {res['exc_type']}: {res['exc_msg']}")
         return Outcome("ok", digest=sha("\x00".join(case["texts"]))[:16], nontrivial=reached_emit > 0,
                        probes={f"result_{k}": v for k, v in kinds.items()})
